@@ -6,7 +6,7 @@ Line-protocol driver for the executable model WITH snapshots (C12). Same protoco
 (the shared part is a verbatim copy) plus
 
     SNAP                        -> {"snap": <the JSON value `snap m s`>, "q": queue length, "rd": raiseDepth,
-                                    "sane": `SnapOK` as a Bool, "idsorted": `IdSorted` as a Bool}
+                                    "sane": `SnapOK` as a Bool, "disorted": `DISorted` as a Bool}
     RESTORE <json>              -> the usual observation of the restored state (`restore m j`), which replaces the
                                    run state; or {"rerr":"InvalidConfigError|StateNotFoundError|SHAPE:<key>"} (state kept)
 
@@ -180,15 +180,15 @@ def handle (d : DS) (line : String) : DS × String :=
     else if line = "SNAP" then
       -- the snapshot, plus the hypotheses of the C12 theorems evaluated on the state it is taken from:
       -- quiescence (queue length, chain-breaker counter), sanity of the configuration / history
-      -- (`SnapOK`) and whether every remembered list already is in id order (`IdSorted`)
+      -- (`SnapOK`) and whether every remembered list is in the (depth, id) order of `_record_history` (`DISorted`)
       let s := d.s
       let b := fun (x : Bool) => if x then "true" else "false"
       let sane := s.cfg.all (fun p => (mm.root.at p).isSome) && s.cfg.all (fun p => s.cfg.contains p.dropLast)
         && (s.cfg.eraseDups.length == s.cfg.length)
         && s.hist.all (fun kv => (mm.root.at kv.1).isSome && !kv.2.isEmpty && kv.2.all (fun q => (mm.root.at q).isSome))
-      let idsorted := s.hist.all (fun kv => sortIds mm kv.2 == kv.2)
+      let disorted := s.hist.all (fun kv => sortDI mm kv.2 == kv.2)
       (d, "{\"snap\":" ++ renderJ (snap mm s) ++ ",\"q\":" ++ toString s.queue.length ++ ",\"rd\":" ++ toString s.raiseDepth
-        ++ ",\"sane\":" ++ b sane ++ ",\"idsorted\":" ++ b idsorted ++ "}")
+        ++ ",\"sane\":" ++ b sane ++ ",\"disorted\":" ++ b disorted ++ "}")
     else if line.startsWith "RESTORE " then
       match parseJson (dropPrefix line 8) with
       | .error _ => (d, "{\"rerr\":\"InvalidConfigError\"}")
